@@ -46,6 +46,9 @@ def run(ck, ctx):
     ck.nd("per-field stamps inside hash values larger than the outer stamp (value-level)")
     ck.rule("R08.11", COVER_TEXT)
     ck.rule("R08.12", TICK_TEXT)
+    ck.rule("R08.14", "a node stamps under its own identity for life: the replica id of a LamportClock is written only at construction - a clock that takes "
+                      "over the id of a stamp it has seen issues stamps in another node's name, and 'greater than every stamp this node issued "
+                      "before' stops being a statement about one sequence (shared with C07 R07.6)")
     ck.rule("R08.13", "compaction keeps a key's greatest stamp: in the per-key fold an entry is replaced only behind `key absent` or `incoming stamp > "
                       "stored stamp` (segment ids do not order ages: a compaction's output gets the newest id and carries the oldest data) - the shard "
                       "clocks are rebuilt from what the segments hold, so losing the newest delta of a key lets the node re-issue its stamp after a "
@@ -77,6 +80,8 @@ def run(ck, ctx):
         _c11._r113(_Alias(ck, "R11.3", "R08.10"), prog, cfg)
         r0811(ck, prog, cfg, "R08.11")
         r0812(ck, prog, cfg, "R08.12")
+        from . import c07 as _c07i
+        _c07i.r076(ck, prog, cfg, "R08.14")
         from . import c13 as _c13
         from .core import Only as _Only
         _c13._rules(_Only(ck, {"R13.1": "R08.13"}, skip_keys=("R13.1:compact:fold-operator",)), prog, cfg)
